@@ -16,12 +16,14 @@ pub struct Rec {
     pub execs: u64,
     pub counters: HashMap<&'static str, u64>,
     sigs: std::collections::HashSet<u64>,
+    only: Option<Vec<String>>,
 }
 
 impl Rec {
     pub fn new() -> Rec {
         mon::install_panic_hook();
-        Rec { out_dir: std::env::var("VMON_FUZZ_OUT").ok(), seen: HashMap::new(), execs: 0, counters: HashMap::new(), sigs: Default::default() }
+        Rec { out_dir: std::env::var("VMON_FUZZ_OUT").ok(), seen: HashMap::new(), execs: 0, counters: HashMap::new(), sigs: Default::default(),
+              only: std::env::var("VMON_FUZZ_PROPS").ok().map(|v| v.split(',').map(|x| x.trim().to_string()).collect()) }
     }
 
     fn record(&mut self, prop: &str, engine: &str, tag: Option<u8>, input: &[u8], f: &Fail) {
@@ -48,6 +50,10 @@ impl Rec {
         }
     }
 
+    fn want(&self, prop: &str) -> bool {
+        self.only.as_ref().map_or(true, |v| v.iter().any(|x| x == prop))
+    }
+
     fn bump(&mut self, k: &'static str) {
         *self.counters.entry(k).or_insert(0) += 1;
     }
@@ -57,6 +63,11 @@ impl Rec {
             let p = format!("{}/stats.{}.json", d, std::process::id());
             let c: serde_json::Map<String, serde_json::Value> = self.counters.iter().map(|(k, v)| (k.to_string(), serde_json::json!(v))).collect();
             let _ = std::fs::write(p, serde_json::json!({"execs": self.execs, "counters": c, "distinct_class_sequences": self.sigs.len()}).to_string());
+            let mut raw = Vec::with_capacity(self.sigs.len() * 8);
+            for x in &self.sigs {
+                raw.extend_from_slice(&x.to_le_bytes());
+            }
+            let _ = std::fs::write(format!("{}/sigs.{}.bin", d, std::process::id()), raw);
         }
     }
 
@@ -80,44 +91,60 @@ impl Rec {
         if refspec::n_subtags(b) >= 2 {
             self.sigs.insert(refspec::class_seq_hash(0xF0, b, 0));
         }
-        for ep in 0..total::EPS.len() {
-            for f in total::c01_check_ep(ep, b) {
-                self.record("C01", "c01", Some(ep as u8), b, &f);
+        if self.want("C01") {
+            for ep in 0..total::EPS.len() {
+                for f in total::c01_check_ep(ep, b) {
+                    self.record("C01", "c01", Some(ep as u8), b, &f);
+                }
             }
         }
-        for f in parse::c02_check(b) {
-            self.record("C02", "c02", None, b, &f);
-        }
-        for f in parse::c03_check(b) {
-            self.record("C03", "c03", None, b, &f);
-        }
-        for f in parse::c04_check(b) {
-            self.record("C04", "c04", None, b, &f);
-        }
-        for f in parse::c05_check(b) {
-            self.record("C05", "c05", None, b, &f);
-        }
-        for f in parse::c13_check(b) {
-            self.record("C13", "c13", None, b, &f);
-        }
-        let mut tagged = Vec::with_capacity(b.len() + 1);
-        for mode in 0..4u8 {
-            tagged.clear();
-            tagged.push(mode);
-            tagged.extend_from_slice(b);
-            for f in parse::c09_check_masks(&tagged) {
-                self.record("C09", "c09", Some(mode), b, &f);
+        if self.want("C02") {
+            for f in parse::c02_check(b) {
+                self.record("C02", "c02", None, b, &f);
             }
         }
-        if b.len() <= 12 {
+        if self.want("C03") {
+            for f in parse::c03_check(b) {
+                self.record("C03", "c03", None, b, &f);
+            }
+        }
+        if self.want("C04") {
+            for f in parse::c04_check(b) {
+                self.record("C04", "c04", None, b, &f);
+            }
+        }
+        if self.want("C05") {
+            for f in parse::c05_check(b) {
+                self.record("C05", "c05", None, b, &f);
+            }
+        }
+        if self.want("C13") {
+            for f in parse::c13_check(b) {
+                self.record("C13", "c13", None, b, &f);
+            }
+        }
+        if self.want("C09") {
+            let mut tagged = Vec::with_capacity(b.len() + 1);
+            for mode in 0..6u8 {
+                tagged.clear();
+                tagged.push(mode);
+                tagged.extend_from_slice(b);
+                for f in parse::c09_check_masks(&tagged) {
+                    self.record("C09", "c09", Some(mode), b, &f);
+                }
+            }
+        }
+        if self.want("C15") && b.len() <= 12 {
             for (i, k) in subtags::KINDS.iter().enumerate() {
                 for f in subtags::c15_check_kind(*k, b) {
                     self.record("C15", "c15", Some(i as u8), b, &f);
                 }
             }
         }
-        for f in raw::c19_check_str(b) {
-            self.record("C19", "c19", None, b, &f);
+        if self.want("C19") {
+            for f in raw::c19_check_str(b) {
+                self.record("C19", "c19", None, b, &f);
+            }
         }
         mon::idle();
         if self.execs % 2048 == 0 {
